@@ -67,4 +67,5 @@ def run(chk, repo, tier):
     dataaudit.remaps_chain_free(chk, repo, 'D02.7')
     dataaudit.patterns_distinct(chk, repo, 'D02.8')
     dataaudit.periph_convention(chk, repo, 'D02.9')
+    dataaudit.neighbour_wildcards(chk, repo, 'D02.10')
 
